@@ -2,7 +2,12 @@
 
 use crate::eviction::{EvictionPolicy, EvictionStore, FifoStore, LfuStore, LruStore};
 use std::hash::Hash;
+#[cfg(not(feature = "verif-hooks"))]
 use std::time::{Duration, Instant};
+#[cfg(feature = "verif-hooks")]
+use std::time::Duration;
+#[cfg(feature = "verif-hooks")]
+use tokio::time::Instant;
 
 /// Entry in the cache with TTL tracking.
 #[derive(Clone, Debug)]
